@@ -1,6 +1,7 @@
 package props
 
 import (
+	"go/token"
 	"golang.org/x/tools/go/ssa"
 
 	"bbcheck/internal/an"
@@ -21,7 +22,16 @@ func workersRules(c *Ctx) {
 		}
 		if q.need(goI, "COND", "go w.worker()") {
 			g := goI[0]
-			d := aF(w + ".count").Minus(aP(cnt))
+			// the count as read by the loop guard that decides this spawn
+			var at ssa.Instruction = g
+			if len(g.Block().Preds) > 0 {
+				for _, ld := range an.FieldLoads(q.fn, "Workers.count") {
+					if ld.Block() == g.Block().Preds[0] {
+						at = ld
+					}
+				}
+			}
+			d := P.FieldAt(w+".count", at).Minus(aP(cnt))
 			// from the loop head: spawn iff count < requested
 			got := P.PathCond(q.fn, g.Block().Preds[0], g, keepForms(d))
 			if len(g.Block().Preds) == 0 {
@@ -33,7 +43,7 @@ func workersRules(c *Ctx) {
 			cs := an.FieldStores(q.fn, "Workers.count")
 			if q.need(cs, "LIN", "count++") {
 				for _, s := range cs {
-					q.expectLin("LIN", "each spawn is counted exactly once", s.(*ssa.Store).Val, aF(w+".count").AddC(1), s)
+					q.expectLin("LIN", "each spawn is counted exactly once", s.(*ssa.Store).Val, P.FieldAt(w+".count", readOf(s)).AddC(1), s)
 					same := s.Block() == g.Block() && P.Before(q.fn, an.Is(s), g)
 					q.add("PATH", "count is incremented in the block that spawns", same, "count++ precedes go in the same block", s)
 				}
@@ -88,10 +98,10 @@ func workersRules(c *Ctx) {
 	cs := an.FieldStores(q.fn, "Workers.count")
 	if q.need(cs, "LIN", "count--") {
 		for _, s := range cs {
-			q.expectLin("LIN", "an exiting worker is uncounted exactly once", s.(*ssa.Store).Val, aF(w+".count").AddC(-1), s)
+			q.expectLin("LIN", "an exiting worker is uncounted exactly once", s.(*ssa.Store).Val, P.FieldAt(w+".count", readOf(s)).AddC(-1), s)
 			twice := P.PathExists(q.fn, s, an.In(cs), nil, nil)
 			q.add("PATH", "no path decrements twice", !twice, "no path from the decrement to another decrement", s)
-			ql, ct := aLen(w+".queue"), aF(w+".count").Minus(aF(w+".target"))
+			ql, ct := P.LenAt(w+".queue", s), P.FieldAt(w+".count", s).Minus(P.FieldAt(w+".target", s))
 			got := P.PathCond(q.fn, nil, s, keepForms(ql, ct))
 			ok, cex := an.EquivDNF(got, an.DNF{conj(lit(ql, an.SZero)), conj(lit(ct, an.SPos))})
 			q.add("COND", "a worker exits iff the queue is empty or count > target", ok,
@@ -213,4 +223,18 @@ func init() {
 			floorKey("S Workers.count", 1, "S/(*Workers).worker/"),
 		},
 	})
+}
+
+// readOf: for a read-modify-write store (x.n = x.n + 1) the load it is computed from; the store itself otherwise.
+func readOf(st ssa.Instruction) ssa.Instruction {
+	if s, ok := st.(*ssa.Store); ok {
+		if bo, isB := s.Val.(*ssa.BinOp); isB {
+			for _, v := range []ssa.Value{bo.X, bo.Y} {
+				if u, isU := v.(*ssa.UnOp); isU && u.Op == token.MUL {
+					return u
+				}
+			}
+		}
+	}
+	return st
 }
